@@ -6,8 +6,19 @@
 //! operand:  `lit:<dec>`   integer literal in the template source (negative: `(-N)`, i.e. unary
 //!                         minus applied to the literal N, which is how templates spell it)
 //!           `u64:<dec>` `i64:<dec>` `u128:<dec>` `i128:<dec>`   context variable of that Rust type
+//!           `src:<text>=<dec>`  integer literal spelled `<text>` in the template (any radix, `_`
+//!                         separators, leading zeros, `-X` or `(-X)` for negatives); `<dec>` is the value
+//!                         the spelling stands for
+//!           `i8: i16: i32: isize: u8: u16: u32: usize:` context variable of that Rust type
+//!           `su64: si64: su128: si128:` the same types passed through serde (`Serde(x)`)
+//!           `bool:0|1`    context variable of type bool (arithmetic only)
 //!           `flit:<hex16>` float literal (shortest round-trip decimal text of the bit pattern)
+//!           `fsrc:<text>=<hex16>` float literal spelled `<text>` (exponent notation, `.0`, `_`)
 //!           `f64:<hex16>`  context variable of type f64
+//! extra streams: `lex <text>` first token of `<text>` as `int:<v>@<end>`, `int128:<v>@<end>`,
+//!           `float:<hex16>@<end>`, `err:SyntaxError`;
+//!           `f_abs A`, `f_int A`, `f_float A`, `f_round A`, `f_sum A B` (`[a, b]|sum`),
+//!           `t_odd A`, `t_even A`, `t_divby A B` (filters and tests)
 //! result:   `i:<dec>` integer, `f:<hex16>` float bits, `b:0|1` bool, `err:<ErrorKind>`, `panic`,
 //!           `other:<kind>`; a suffix `|render=<text>` is added when rendering `{{ expr }}` does
 //!           not print the same integer/bool (or fails differently) as `Expression::eval`.
@@ -99,6 +110,23 @@ fn operand(tok: &str, name: &str) -> (String, Option<Value>) {
             let z = Z::parse(val);
             if z.neg { (format!("(-{})", z.mag), None) } else { (format!("{}", z.mag), None) }
         }
+        "src" | "fsrc" => {
+            let (text, _) = val.rsplit_once('=').expect("src needs text=value");
+            (text.to_string(), None)
+        }
+        "bool" => (name.to_string(), Some(Value::from(val == "1"))),
+        "i8" => (name.to_string(), Some(Value::from(val.parse::<i8>().expect("not an i8")))),
+        "i16" => (name.to_string(), Some(Value::from(val.parse::<i16>().expect("not an i16")))),
+        "i32" => (name.to_string(), Some(Value::from(val.parse::<i32>().expect("not an i32")))),
+        "isize" => (name.to_string(), Some(Value::from(val.parse::<isize>().expect("not an isize")))),
+        "u8" => (name.to_string(), Some(Value::from(val.parse::<u8>().expect("not a u8")))),
+        "u16" => (name.to_string(), Some(Value::from(val.parse::<u16>().expect("not a u16")))),
+        "u32" => (name.to_string(), Some(Value::from(val.parse::<u32>().expect("not a u32")))),
+        "usize" => (name.to_string(), Some(Value::from(val.parse::<usize>().expect("not a usize")))),
+        "su64" => (name.to_string(), Some(Value::from(Serde(Z::parse(val).as_u64().expect("not a u64"))))),
+        "si64" => (name.to_string(), Some(Value::from(Serde(Z::parse(val).as_i64().expect("not an i64"))))),
+        "su128" => (name.to_string(), Some(Value::from(Serde(Z::parse(val).as_u128().expect("not a u128"))))),
+        "si128" => (name.to_string(), Some(Value::from(Serde(Z::parse(val).as_i128().expect("not an i128"))))),
         "u64" => var!(Z::parse(val).as_u64().expect("not a u64")),
         "i64" => var!(Z::parse(val).as_i64().expect("not an i64")),
         "u128" => var!(Z::parse(val).as_u128().expect("not a u128")),
@@ -138,11 +166,46 @@ fn canon(v: &Value) -> String {
     format!("other:{:?}", v.kind())
 }
 
+fn run_lex(text: &str) -> String {
+    use minijinja::machinery::{tokenize, Token, WhitespaceConfig};
+    use minijinja::syntax::SyntaxConfig;
+    let r = guarded(|| {
+        match tokenize(text, true, SyntaxConfig::default(), WhitespaceConfig::default()).next() {
+            Some(Ok((Token::Int(v), span))) => format!("int:{}@{}", v, span.end_offset),
+            Some(Ok((Token::Int128(v), span))) => format!("int128:{}@{}", *v, span.end_offset),
+            Some(Ok((Token::Float(f), span))) => format!("float:{:016x}@{}", f.to_bits(), span.end_offset),
+            Some(Ok((other, _))) => format!("other:{}", other),
+            Some(Err(e)) => format!("err:{}", error_kind_name(&e)),
+            None => "none".to_string(),
+        }
+    });
+    r.unwrap_or_else(|_| "panic".to_string())
+}
+
 fn run_case(env: &Environment, fields: &[&str]) -> String {
     let op = fields[0];
+    if op == "lex" {
+        return run_lex(fields[1]);
+    }
     let src;
     let (va, vb);
-    if op == "neg" {
+    if let Some(tmpl) = match op {
+        "f_abs" => Some("<A>|abs"),
+        "f_int" => Some("<A>|int"),
+        "f_float" => Some("<A>|float"),
+        "f_round" => Some("<A>|round"),
+        "f_sum" => Some("[<A>, <B>]|sum"),
+        "t_odd" => Some("<A> is odd"),
+        "t_even" => Some("<A> is even"),
+        "t_divby" => Some("<A> is divisibleby(<B>)"),
+        _ => None,
+    } {
+        let (sa, a) = operand(fields[1], "a");
+        let (sb, b) = if fields.len() > 2 { operand(fields[2], "b") } else { (String::new(), None) };
+        src = tmpl.replace("<A>", &sa).replace("<B>", &sb);
+        va = a;
+        vb = b;
+    } else if op == "neg" {
         let (sa, a) = operand(fields[1], "a");
         src = format!("-{}", sa);
         va = a;
@@ -329,6 +392,182 @@ fn rand_float(rng: &mut Rng) -> f64 {
     }
 }
 
+/// insert `n` underscores at random interior positions (never at the end; at the very start only
+/// when `at_start` — i.e. right after a radix prefix)
+fn sprinkle(rng: &mut Rng, digits: &str, n: u64, at_start: bool) -> String {
+    let mut v: Vec<char> = digits.chars().collect();
+    for _ in 0..n {
+        let lo = if at_start { 0 } else { 1 };
+        let hi = v.len(); // insert before index in lo..hi  (hi - 1 is the last char, so never trailing)
+        if hi <= lo {
+            break;
+        }
+        let pos = lo + rng.below((hi - lo) as u64) as usize;
+        v.insert(pos, '_');
+    }
+    v.into_iter().collect()
+}
+
+/// a spelling of the non-negative integer `mag` chosen by `style` (0..STYLES) plus random details
+const STYLES: u64 = 12;
+fn spell_mag(rng: &mut Rng, mag: u128, style: u64) -> String {
+    let (prefix, mut digits): (&str, String) = match style {
+        0 => ("", format!("{}", mag)),
+        1 => ("", format!("{}", mag)),
+        2 => ("0x", format!("{:x}", mag)),
+        3 => ("0X", format!("{:X}", mag)),
+        4 => ("0x", format!("{:X}", mag)),
+        5 => ("0o", format!("{:o}", mag)),
+        6 => ("0O", format!("{:o}", mag)),
+        7 => ("0b", format!("{:b}", mag)),
+        8 => ("0B", format!("{:b}", mag)),
+        9 => ("0x", format!("{:x}", mag)),
+        10 => ("0o", format!("{:o}", mag)),
+        _ => ("0b", format!("{:b}", mag)),
+    };
+    // styles 1, 9, 10, 11 always carry decoration; the others sometimes
+    let decorate = matches!(style, 1 | 9 | 10 | 11) || rng.chance(1, 3);
+    if decorate {
+        if rng.chance(1, 2) {
+            let zeros = 1 + rng.below(3) as usize;
+            digits = format!("{}{}", "0".repeat(zeros), digits);
+        }
+        let n = rng.below(4);
+        let at_start = !prefix.is_empty() && rng.chance(1, 4);
+        digits = sprinkle(rng, &digits, n, at_start);
+        if matches!(style, 2 | 9) && rng.chance(1, 3) {
+            // mixed-case hex digits
+            digits = digits.chars().enumerate().map(|(i, c)| if i % 2 == 0 { c.to_ascii_uppercase() } else { c }).collect();
+        }
+    }
+    format!("{}{}", prefix, digits)
+}
+
+fn spell_int_style(rng: &mut Rng, z: Z, style: u64, bare_minus_ok: bool) -> String {
+    let body = spell_mag(rng, z.mag, style);
+    let text = if z.neg {
+        if bare_minus_ok && rng.chance(1, 2) { format!("-{}", body) } else { format!("(-{})", body) }
+    } else {
+        body
+    };
+    format!("src:{}={}", text, z.text())
+}
+
+fn spell_int(rng: &mut Rng, z: Z, bare_minus_ok: bool) -> String {
+    let style = rng.below(STYLES);
+    spell_int_style(rng, z, style, bare_minus_ok)
+}
+
+/// spellings of a finite float: shortest round-trip, exponent notation (e / E / e+), `.0` form of
+/// integral values, `_` separators in the integer part
+fn spell_float(rng: &mut Rng, f: f64, bare_minus_ok: bool) -> String {
+    let a = f.abs();
+    let mut body = match rng.below(6) {
+        0 => format!("{:?}", a),
+        1 => format!("{:e}", a),
+        2 => format!("{:E}", a),
+        3 => {
+            let t = format!("{:e}", a);
+            match t.split_once('e') {
+                Some((m, e)) if !e.starts_with('-') => format!("{}e+{}", m, e),
+                _ => t,
+            }
+        }
+        4 if a.fract() == 0.0 => format!("{:.1}", a),
+        _ => {
+            let t = format!("{:?}", a);
+            if t.contains('e') { t } else { format!("{}e0", t) }
+        }
+    };
+    if rng.chance(1, 4) {
+        // separators inside the leading digit run
+        let lead = body.chars().take_while(|c| c.is_ascii_digit()).count();
+        if lead >= 2 {
+            let n = 1 + rng.below(2);
+            let head = sprinkle(rng, &body[..lead], n, false);
+            body = format!("{}{}", head, &body[lead..]);
+        }
+    }
+    let text = if f.is_sign_negative() {
+        if bare_minus_ok && rng.chance(1, 2) { format!("-{}", body) } else { format!("(-{})", body) }
+    } else {
+        body
+    };
+    format!("fsrc:{}={:016x}", text, f.to_bits())
+}
+
+/// `src:-X=v` -> `src:(-X)=v` (left operand of `**`: a bare minus would depend on precedence)
+fn paren_minus(tok: &str) -> String {
+    for p in ["src:-", "fsrc:-"] {
+        if let Some(rest) = tok.strip_prefix(p) {
+            let (text, v) = rest.rsplit_once('=').unwrap();
+            return format!("{}(-{})={}", &p[..p.len() - 1], text, v);
+        }
+    }
+    tok.to_string()
+}
+
+/// re-spell every `lit:`/`flit:` operand of a case
+fn respell(rng: &mut Rng, case: &str) -> Option<String> {
+    let f: Vec<&str> = case.split(' ').collect();
+    let mut changed = false;
+    let mut out = vec![f[0].to_string()];
+    for (i, t) in f[1..].iter().enumerate() {
+        if let Some(v) = t.strip_prefix("lit:") {
+            // a bare minus in front of the left operand of `**` depends on operator precedence
+            let bare_ok = !(f[0] == "pow" && i == 0);
+            out.push(spell_int(rng, Z::parse(v), bare_ok));
+            changed = true;
+        } else if let Some(h) = t.strip_prefix("flit:") {
+            let x = f64::from_bits(u64::from_str_radix(h, 16).unwrap());
+            let bare_ok = !(f[0] == "pow" && i == 0);
+            out.push(spell_float(rng, x, bare_ok));
+            changed = true;
+        } else {
+            out.push(t.to_string());
+        }
+    }
+    if changed { Some(out.join(" ")) } else { None }
+}
+
+const SMALL_TYPES: [(&str, i128, i128); 8] = [
+    ("i8", i8::MIN as i128, i8::MAX as i128),
+    ("i16", i16::MIN as i128, i16::MAX as i128),
+    ("i32", i32::MIN as i128, i32::MAX as i128),
+    ("isize", isize::MIN as i128, isize::MAX as i128),
+    ("u8", 0, u8::MAX as i128),
+    ("u16", 0, u16::MAX as i128),
+    ("u32", 0, u32::MAX as i128),
+    ("usize", 0, usize::MAX as i128),
+];
+
+/// an operand from one of the "other" numeric entry points
+fn other_entry_tok(rng: &mut Rng) -> String {
+    match rng.below(10) {
+        0 => format!("bool:{}", rng.below(2)),
+        1..=5 => {
+            let (name, lo, hi) = *rng.pick(&SMALL_TYPES);
+            let v = match rng.below(5) {
+                0 => lo,
+                1 => hi,
+                2 => lo + rng.below(3) as i128,
+                3 => hi - rng.below(3) as i128,
+                _ => rng.below(3) as i128 - if lo < 0 { 1 } else { 0 },
+            };
+            format!("{}:{}", name, v.clamp(lo, hi))
+        }
+        _ => {
+            let z = rand_int(rng);
+            let mut forms = Vec::new();
+            if z.as_u64().is_some() { forms.push("su64"); }
+            if z.as_i64().is_some() { forms.push("si64"); }
+            if z.as_u128().is_some() { forms.push("su128"); }
+            if z.as_i128().is_some() { forms.push("si128"); }
+            format!("{}:{}", rng.pick(&forms), z.text())
+        }
+    }
+}
+
 fn int_tok(rng: &mut Rng, z: Z, form: Option<&str>) -> String {
     let f = match form {
         Some(f) => f,
@@ -511,6 +750,146 @@ fn generate(tier: &str) -> Vec<String> {
         };
         for op in ["fdiv", "rem"] {
             cases.push(format!("{} {} {}", op, ta, tb));
+        }
+    }
+
+    // 6. literal spellings: every zoo value in every style (radix, prefix case, separators, leading
+    //    zeros, sign placement): alone under unary minus, in a sum and compared with its decimal form
+    for z in &zi {
+        for style in 0..STYLES {
+            let sp = spell_int_style(&mut rng, *z, style, true);
+            cases.push(format!("neg {}", sp));
+            let sp = spell_int_style(&mut rng, *z, style, true);
+            cases.push(format!("add {} lit:1", sp));
+            let sp = spell_int_style(&mut rng, *z, style, true);
+            cases.push(format!("eq {} {}", sp, int_tok(&mut rng, *z, None)));
+            let sp = spell_int_style(&mut rng, *z, style, true);
+            let w = *rng.pick(&zi);
+            let op = *rng.pick(&BIN);
+            let sw = spell_int(&mut rng, w, true);
+            if op == "pow" {
+                cases.push(format!("{} {} {}", op, paren_minus(&sp), sw));
+            } else {
+                cases.push(format!("{} {} {}", op, sw, sp));
+            }
+        }
+    }
+    //    and a re-spelled copy of a share of everything generated so far
+    let n_before = cases.len();
+    let share = if thorough { 3 } else { 4 };
+    for i in 0..n_before {
+        if rng.below(share) == 0 {
+            if let Some(c) = respell(&mut rng, &cases[i].clone()) {
+                cases.push(c);
+            }
+        }
+    }
+
+    // 7. the lexer alone: the spellings above, hand-picked edge texts, random texts over the
+    //    alphabet of number literals
+    let mut lex: Vec<String> = Vec::new();
+    for c in &cases {
+        for t in c.split(' ').skip(1) {
+            if let Some(rest) = t.strip_prefix("src:").or_else(|| t.strip_prefix("fsrc:")) {
+                let text = rest.rsplit_once('=').unwrap().0;
+                let text = text.trim_start_matches('(').trim_end_matches(')').trim_start_matches('-');
+                if rng.chance(1, 8) {
+                    lex.push(format!("lex {}", text));
+                }
+            }
+        }
+    }
+    for t in [
+        "0", "00", "0_0", "1_", "1__2", "0x", "0x_", "0x_1", "0b", "0b2", "0b12", "0o8", "0o78", "0xg", "0xfg", "0XFF",
+        "0Xff_", "0b_1_0", "1.5", "1.", "1.e5", "1.e", "1.foo", "1._5", "1.5.2", "1..2", "1e5", "1E5", "1e", "1e+", "1e-",
+        "1e+5", "1e_5", "1_e5", "1e5_", "1.5e-3", "1.5E+3x", "1_0.5", "10e-1", "0x1e5", "0x1.5", "0b1e5", "0o7e1", "0e0",
+        "0x10000000000000000", "0xffffffffffffffffffffffffffffffff", "0x100000000000000000000000000000000",
+        "0o3777777777777777777777777777777777777777777", "0o4000000000000000000000000000000000000000000",
+        "340282366920938463463374607431768211455", "340282366920938463463374607431768211456",
+        "18446744073709551615", "18446744073709551616", "0b1111111111111111111111111111111111111111111111111111111111111111",
+        "0b10000000000000000000000000000000000000000000000000000000000000000", "1e400", "1e-400", "9.9.9",
+        "0B101)", "0O17+1", "0X_a_B", "123abc", "0x12_34_", "7e", "7e1", "7E-1", "7.e1", "1a", "0a", "0_x1", "00x1",
+    ] {
+        lex.push(format!("lex {}", t));
+    }
+    let alphabet: Vec<char> = "0011279aAbBeEfFxXoO__..+-)g ".chars().collect();
+    for _ in 0..(if thorough { 60000 } else { 8000 }) {
+        let len = 1 + rng.below(9);
+        let mut t = String::new();
+        t.push(*rng.pick(&['0', '0', '1', '7', '9']));
+        for _ in 0..len {
+            t.push(*rng.pick(&alphabet));
+        }
+        if t.contains(' ') {
+            t = t.split(' ').next().unwrap().to_string();
+        }
+        lex.push(format!("lex {}", t));
+    }
+    cases.extend(lex);
+
+    // 8. the other numeric entry points: bool / narrow integer types / serde-passed wide integers
+    //    as operands of the operators (integer arithmetic; comparisons for the integer types)
+    for _ in 0..(if thorough { 60000 } else { 6000 }) {
+        let a = other_entry_tok(&mut rng);
+        let b = if rng.chance(1, 2) {
+            other_entry_tok(&mut rng)
+        } else {
+            let z = if rng.chance(1, 2) { *rng.pick(&zi) } else { rand_int(&mut rng) };
+            if rng.chance(1, 3) { spell_int(&mut rng, z, true) } else { int_tok(&mut rng, z, None) }
+        };
+        let (a, b) = if rng.chance(1, 2) { (a, b) } else { (b, a) };
+        let has_bool = a.starts_with("bool:") || b.starts_with("bool:");
+        if rng.chance(1, 8) {
+            cases.push(format!("neg {}", a));
+        } else if !has_bool && rng.chance(1, 4) {
+            cases.push(format!("{} {} {}", rng.pick(&CMP), a, b));
+        } else {
+            let op = *rng.pick(&BIN);
+            let a = if op == "pow" { paren_minus(&a) } else { a };
+            cases.push(format!("{} {} {}", op, a, b));
+        }
+    }
+
+    // 9. filters and tests at the boundaries: abs / int / float / round / sum, odd / even / divisibleby
+    let mut filt_vals: Vec<Z> = zi.clone();
+    for _ in 0..(if thorough { 3000 } else { 400 }) {
+        filt_vals.push(rand_int(&mut rng));
+    }
+    for z in &zi {
+        // the zoo in every form
+        for op in ["f_abs", "f_int", "f_float", "f_round", "t_odd", "t_even"] {
+            for f in z.forms() {
+                cases.push(format!("{} {}:{}", op, f, z.text()));
+            }
+        }
+    }
+    for z in &filt_vals {
+        for op in ["f_abs", "f_int", "f_float", "f_round", "t_odd", "t_even"] {
+            for _ in 0..2 {
+                let t = if rng.chance(1, 4) { spell_int(&mut rng, *z, true) } else { int_tok(&mut rng, *z, None) };
+                cases.push(format!("{} {}", op, t));
+            }
+        }
+        for _ in 0..4 {
+            let w = if rng.chance(1, 2) { *rng.pick(&zi) } else { rand_int(&mut rng) };
+            let w2 = match targeted(&mut rng, "add", *z) { Some(x) if rng.chance(1, 2) => x, _ => w };
+            let ta = int_tok(&mut rng, *z, None);
+            let tb = int_tok(&mut rng, w2, None);
+            cases.push(format!("f_sum {} {}", ta, tb));
+            let d = if rng.chance(1, 2) { Z::new(rng.chance(1, 2), 1 + rng.below(12) as u128) } else { w };
+            let ta = int_tok(&mut rng, *z, None);
+            let td = int_tok(&mut rng, d, None);
+            cases.push(format!("t_divby {} {}", ta, td));
+        }
+    }
+    let mut filt_floats: Vec<f64> = zf.clone();
+    for _ in 0..(if thorough { 3000 } else { 400 }) {
+        filt_floats.push(rand_float(&mut rng));
+    }
+    for f in &filt_floats {
+        for op in ["f_abs", "f_int", "f_float", "f_round"] {
+            let t = if rng.chance(1, 3) { spell_float(&mut rng, *f, true) } else { float_tok(&mut rng, *f) };
+            cases.push(format!("{} {}", op, t));
         }
     }
 
